@@ -455,21 +455,48 @@ def check_body_read(P, R):
          detail='' if rebinds else 'no switch of the buffer to a TemporaryFile found', nontrivial=False)
     # the rebinding happens at most once: guarded by a flag set on the same edge
     for d in rebinds:
-        ok = False
-        # some flag is known to be false where the switch happens, and is set on every way from the switch back to the loop head
-        for (e_, holds_, tn_) in T.guard_atoms(f, d.node, within=loop):
-            if isinstance(e_, ast.Name) and not holds_:
-                fl = e_.id
-                sets = [n_ for n_ in g.nodes for dd in rd.gen.get(n_, []) if dd.name == fl and dd.value is not None and is_const(dd.value, True)
-                        and n_.ast is not None and T._inside(n_.ast, loop.body)]
-                resets = [n_ for n_ in g.nodes for dd in rd.gen.get(n_, []) if dd.name == fl and n_.ast is not None and T._inside(n_.ast, loop.body)
-                          and not (dd.value is not None and is_const(dd.value, True))]
-                if sets and not resets and g.must_pass(d.node, head, sets):
-                    ok = True
+        ok = bool(one_shot_flags(f, loop, head, d, body))
         R.ob('C04.d', f, d.stmt, ok, text=f'{short(d.stmt)} [once]', detail='' if ok else
              'the switch to a temporary file is not guarded by a one-shot flag set on the same branch',
              why='re-spilling on every later part copies getvalue() of a file object (AttributeError) or loses data',
              key_extra='once')
+
+
+def _falsy_const(v):
+    return isinstance(v, ast.Constant) and (v.value is False or v.value is None or (type(v.value) is int and v.value == 0))
+
+
+def one_shot_flags(f, loop, head, d, body, with_armed=False):
+    """names of the flags that let the switch `d` happen once: known to be armed where the switch stands, disarmed by a constant on
+    every way from the switch back to the loop head, never re-armed in the loop.  `not spilled` / True, `in_memory` / False,
+    `mem is not None` / None.  with_armed: (name, predicate telling that a value expression is an armed state) pairs."""
+    g, rd = f.cfg, f.rd
+    out = []
+    for (e_, holds_, tn_) in T.guard_atoms(f, d.node, within=loop):
+        fl = disarm = armed = None
+        cp_ = T.compare_parts(e_)
+        if isinstance(e_, ast.Name):
+            fl = e_.id
+            if not holds_:
+                disarm = lambda v: isinstance(v, ast.Constant) and v.value is True
+                armed = _falsy_const
+            else:
+                disarm = _falsy_const
+                armed = lambda v: isinstance(v, ast.Constant) and v.value is True
+        elif cp_ and cp_[1] in (ast.Is, ast.IsNot) and is_const(cp_[2], None) and isinstance(cp_[0], ast.Name):
+            fl = cp_[0].id
+            if (cp_[1] is ast.IsNot) == bool(holds_):
+                disarm = lambda v: isinstance(v, ast.Constant) and v.value is None
+                armed = lambda v: (isinstance(v, ast.Constant) and v.value is not None) or \
+                    (isinstance(v, ast.Call) and isinstance(v.func, (ast.Name, ast.Attribute)) and (dotted(v.func) or '').split('.')[-1][:1].isupper())
+        if fl is None or disarm is None or fl == body:
+            continue
+        in_loop = [(n_, dd) for n_ in g.nodes for dd in rd.gen.get(n_, []) if dd.name == fl and n_.ast is not None and T._inside(n_.ast, loop.body)]
+        sets = [n_ for (n_, dd) in in_loop if dd.kind == 'assign' and dd.value is not None and disarm(dd.value)]
+        resets = [n_ for (n_, dd) in in_loop if not (dd.kind == 'assign' and dd.value is not None and disarm(dd.value))]
+        if sets and not resets and g.must_pass(d.node, head, sets):
+            out.append((fl, armed) if with_armed else fl)
+    return out
 
 
 def check_body_props(P, R):
